@@ -297,7 +297,7 @@ func c15Services(r *rand.Rand) []string {
 	return []string{"c15.users"}
 }
 
-func c15RunRandom(t *testing.T, m *vk.M, salt string, n int, trigger bool) {
+func c15RunRandom(t *testing.T, m *vk.M, salt string, n int, trigger, rekey bool) {
 	kinds := map[string]int64{}
 	for idx := 1; idx <= n; idx++ {
 		if !m.Only(idx) {
@@ -307,6 +307,13 @@ func c15RunRandom(t *testing.T, m *vk.M, salt string, n int, trigger bool) {
 		w := newC15World(m, idx, r, c15Services(r))
 		if w.incon {
 			return
+		}
+		if rekey {
+			// a deleted key may be registered again with another value (a publisher with a
+			// fixed id that comes back on another address); every check of the family
+			// reports under one phase
+			w.rekey = true
+			w.tag = "key-reregistered-with-new-value"
 		}
 		if idx%5 == 0 {
 			w.etcd.base = 0 // empty etcd reports revision 0: the first watch is created without a start revision
@@ -344,7 +351,20 @@ func TestVerifC15Histories(t *testing.T) {
 	m := vk.New(t, "C15", "seeded random histories of put/del (delivered or missed), pump, reload, attach, broken watch stream over 1-2 service keys, 3-7 keys and 2-4 values per key (values shared); "+c15Rule)
 	defer m.Done()
 	defer c15Wall(m, time.Now())
-	c15RunRandom(t, m, "hist", vk.N(1200, 20000), false)
+	c15RunRandom(t, m, "hist", vk.N(1200, 20000), false, false)
+}
+
+// TestVerifC15Rekeyed: as Histories, but a key that was deleted may be registered
+// again with a different value (each life of a key still carries one value; a live
+// key is never overwritten). The delete and the new registration may both be
+// delivered, or both be missed - then the reload snapshot shows the same key with
+// another value and the old value has to go, the new one to come.
+func TestVerifC15Rekeyed(t *testing.T) {
+	logx.Disable()
+	m := vk.New(t, "C15", "as Histories, and a deleted key may come back with a different value (delete and re-registration delivered, or missed until a reload); "+c15Rule)
+	defer m.Done()
+	defer c15Wall(m, time.Now())
+	c15RunRandom(t, m, "rekey", vk.N(400, 8000), false, true)
 }
 
 // TestVerifC15Reconnect: the same histories, but the reload is started by the
@@ -356,7 +376,7 @@ func TestVerifC15Reconnect(t *testing.T) {
 	m := vk.New(t, "C15", "as Histories, with connection losses/recoveries fed to stateWatcher.updateState (scripted etcdConn): a Ready after TransientFailure/Shutdown must start a reload; "+c15Rule)
 	defer m.Done()
 	defer c15Wall(m, time.Now())
-	c15RunRandom(t, m, "reconnect", vk.N(600, 6000), true)
+	c15RunRandom(t, m, "reconnect", vk.N(600, 6000), true, false)
 }
 
 // TestVerifC15GetRetry: the snapshot Get fails once during a reload (load()
